@@ -34,6 +34,9 @@ type Fragment struct {
 	WildIdx bool // [*]
 	Flatten bool
 	Filter  bool
+	// FilterConds, if non-nil, restricts filter conditions to these token sequences
+	// (otherwise any generated expression is a condition).
+	FilterConds [][]model.Tok
 	Dot     bool
 	Pipe    bool
 	Or      bool
@@ -345,7 +348,20 @@ func (g *Gen) gen(n gnt, w int) []string {
 				out = append(out, s)
 			}
 		}
-		if f.Filter {
+		if f.Filter && f.FilterConds != nil {
+			fs, fw := g.fx(model.FILTER)
+			for _, c := range f.FilterConds {
+				tw := fw + rw
+				body := ""
+				for _, t := range c {
+					tw += g.w(t)
+					body += g.sym(t)
+				}
+				if tw == w {
+					out = append(out, fs+body+rb)
+				}
+			}
+		} else if f.Filter {
 			fs, fw := g.fx(model.FILTER)
 			for _, e := range g.gen(gPipe, w-fw-rw) {
 				out = append(out, fs+e+rb)
